@@ -11,6 +11,7 @@ static void init(const sk_opts* o)
 	else if (!strcmp(v, "cvc")) which = 3;
 	else if (!strcmp(v, "pki")) which = 4;
 	else if (!strcmp(v, "bakesweep")) which = 5;
+	else if (!strcmp(v, "bakebase")) which = 6;
 	else which = 0;
 }
 
@@ -23,6 +24,7 @@ static void run(uint64_t seed, const sk_mask* mask, sk_result* out)
 	case 2: run_sm(seed, mask, out); break;
 	case 3: run_cvc(seed, mask, out); break;
 	case 5: run_bake_sweep(seed, mask, out); break;
+	case 6: run_bake_base(seed, mask, out); break;
 	default: run_pki(seed, mask, out); break;
 	}
 }
